@@ -10,7 +10,7 @@ ASSUMPTIONS = base.ASSUMPTIONS + ['operator, fxpmath.add/sub/mul and np.add/subt
 RULE = ('AR lines (op in add/sub/mul, policy optimal, method raw/repr, route operator/function/numpy): every pair of codes for operand words <=3 (quick) / <=4 (thorough) with n_frac in -1..n_word+1 and any '
         'signedness mix; the four extreme-code corners of format pairs with result word <=53; random codes; arrays with broadcasting; EXPR lines: random expression trees of depth <=4 over leaves of up to 6 bits (result word <=53) evaluated on both sides, every leaf reached through a resize history. '
         'non-trivial = operands have different formats or some code is an extreme of its format')
-TECHNIQUE = 'Lean 4 theorems (optimal add/sub/mul results fit their growth-rule format for all formats and codes; value exact; expression trees exact by structural induction) + differential correspondence'
+TECHNIQUE = 'Lean 4 theorems (optimal add/sub/mul results fit their growth-rule format for all formats and codes; value exact; expression trees exact by structural induction) + differential correspondence + source tie: the growth/sizing/carrier rules of fxpmath/functions.py are translated to Lean on every run (harness/srcgen.py) and the tie theorems of lean/FxpVerif/Gen/Tie.lean re-checked against the translation'
 LEVEL_TEXT = ('Machine-checked for every pair of formats (any signedness mix, any n_frac, unbounded word lengths): the aligned sum/difference/product of in-range codes lies in the range of the growth-rule format, '
               'so saturate and wrap are the identity, no flag is raised and the value is the exact result; the one exception (negative difference of unsigned operands) is characterised; nested expressions are exact by induction. '
               'Tied to /repo by exhaustive small format pairs, extreme-code corners and random trees through all three call routes.')
